@@ -98,8 +98,8 @@ var (
 		"keyword":          {"kwend", "kwkey", "k:start"},
 		"lambda":           {"lam1", "fcar", "e:(lambda (&rest r) (car r))"},
 		"function":         {"lam1", "fcar", "e:(lambda (&rest r) (car r))"},
-		"real":             {"i:0", "i:1", "i:-1", "e:1.5d0", "e:0.0001d0", "ratio", "e:1.0e10", "e:-0.5"},
-		"number":           {"i:0", "i:1", "i:-1", "e:1.5d0", "e:0.0001d0", "ratio"},
+		"real":             {"i:0", "i:1", "i:-1", "e:1.5d0", "e:0.0001d0", "ratio", "e:1.0e10", "e:-0.5", "e:1/3", "i:400000000", "i:9223372036854775807"},
+		"number":           {"i:0", "i:1", "i:-1", "e:1.5d0", "e:0.0001d0", "ratio", "e:1/3", "e:-1/3", "i:400000000", "i:9223372036854775807", "i:-9223372036854775808"},
 		"float":            {"e:0.0d0", "e:1.5d0", "e:0.0001d0", "e:-2.5s0", "e:1.0d21"},
 		"rational":         {"i:0", "i:1", "i:-1", "ratio", "big2e64"},
 		"integer":          boundValues[:9],
